@@ -1112,7 +1112,7 @@ class Emitter:
         out = [f"let {r} ← {lname_}{gen_arg}{cap_args} {paren(fuel)} {mut_pat}",
                f"match {r} with",
                f"| Ctl.ret v => return v" if not env.loop else f"| Ctl.ret v => return (Ctl.ret v)",
-               f"| Ctl.fuel => {self.u.panic}",
+               f"| Ctl.fuel => {getattr(self.u, 'fuel_panic', {}).get(env.fn.name, self.u.panic)}",
                f"| Ctl.brk {mut_pat if muts else '_'} =>"]
         if muts:
             out.append([f"{env.vars[m][0]} := {env.vars[m][0]}" for m in muts] if False else ["pure ()"])
@@ -1125,7 +1125,7 @@ class Emitter:
             out = [f"let {r} ← {lname_}{gen_arg}{cap_args} {paren(fuel)} {mut_pat}",
                    f"let {tuple_of(fresh)} ← match {r} with",
                    [f"| Ctl.ret v => return v" if not env.loop else f"| Ctl.ret v => return (Ctl.ret v)",
-                    f"| Ctl.fuel => {self.u.panic}",
+                    f"| Ctl.fuel => {getattr(self.u, 'fuel_panic', {}).get(env.fn.name, self.u.panic)}",
                     f"| Ctl.brk m => pure m"]]
             out += [f"{env.vars[m][0]} := {f}" for m, f in zip(muts, fresh)]
         return out
@@ -1176,12 +1176,12 @@ class Emitter:
             fresh = [env.fresh(env.vars[m][0] + "'") for m in muts]
             out += [f"let {tuple_of(fresh)} ← match {r} with",
                     [f"| Ctl.ret v => return v" if not env.loop else f"| Ctl.ret v => return (Ctl.ret v)",
-                     f"| Ctl.fuel => {self.u.panic}", f"| Ctl.brk m => pure m"]]
+                     f"| Ctl.fuel => {getattr(self.u, 'fuel_panic', {}).get(env.fn.name, self.u.panic)}", f"| Ctl.brk m => pure m"]]
             out += [f"{env.vars[m][0]} := {f}" for m, f in zip(muts, fresh)]
         else:
             out += [f"match {r} with",
                     f"| Ctl.ret v => return v" if not env.loop else f"| Ctl.ret v => return (Ctl.ret v)",
-                    f"| Ctl.fuel => {self.u.panic}", f"| Ctl.brk _ =>", ["pure ()"]]
+                    f"| Ctl.fuel => {getattr(self.u, 'fuel_panic', {}).get(env.fn.name, self.u.panic)}", f"| Ctl.brk _ =>", ["pure ()"]]
         return out
 
     # ------------------------------------------------------------------ functions
